@@ -238,6 +238,7 @@ def register(reg):
         dyn.fields["_setup"] = Opaque("setup") if I.eng.choose(2, "scenario has a setup block?") == 1 else None
         dyn.bound = []
         dyn.fields["_bindTo"] = BuiltinFn("_bindTo", lambda sc: dyn.bound.append(sc))
+        dyn.fields["_unbind"] = BuiltinFn("_unbind", lambda: None)  # modelled scenario: the real _bindTo / _unbind pair is under contract in section (6)
         opts = PObj("CompileOptions", tag="compileOptions")
         opts.fields["mode2D"] = mode2d
         scene.fields.update(dynamicScenario=dyn, params=PDict([("p", 1)]), compileOptions=opts, behaviorNamespaces=PDict([("mod", (ns, ns_sampled, ns_orig))]))
@@ -1181,6 +1182,7 @@ def register_simulation_cleanup(reg):
         dyn.fields["_setup"] = None
         dyn.fields["_isRunning"] = False
         dyn.fields["_bindTo"] = BuiltinFn("_bindTo", lambda sc: None)
+        dyn.fields["_unbind"] = BuiltinFn("_unbind", lambda: None)  # see section (6)
 
         def dyn_start():
             dyn.fields["_isRunning"] = True
@@ -1593,6 +1595,8 @@ def register_start_stop(reg):
             _temporalRequirements=PList([treq]), _requirementMonitors=None, _compose=None, _agents=PList([agent]), _monitors=PList([mon]),
             _subScenarios=PList(), _overrides=PDict(), _recordedExprs=PList(), _globalParameters=PDict(), _ego=None, _workspace=None,
         )
+        # the remaining attributes DynamicScenario.__init__ gives every scenario and _bindTo rebinds (read by a _bindTo that saves them, section 6)
+        sc.fields.update(_objects=PList([agent]), _terminationConditions=PList(), _terminateSimulationConditions=PList(), _recordedInitialExprs=PList(), _recordedFinalExprs=PList())
         sc.fields["_checkAllPreconditions"] = BuiltinFn("_checkAllPreconditions", check_pre)
         scene = PObj("Scene", tag="scene")
         scene.fields.update(egoObject=agent, workspace=PObj("Workspace", tag="workspace"), objects=(agent,), monitors=(mon,), temporalRequirements=PList([treq]), terminationConditions=PList(), terminateSimulationConditions=PList(), recordedExprs=PList(), recordedInitialExprs=PList(), recordedFinalExprs=PList())
@@ -1816,6 +1820,638 @@ def replay_restart(inputs, clause):
     return None
 
 
+# ====================================================================================================
+# (6) the compiled scenario after a simulation: everything `DynamicScenario._bindTo(scene)` binds when a simulation
+#     begins is unbound again when it is over ("Running a simulation never changes [...] the compiled scenario";
+#     "afterwards compiling, sampling and simulating behave exactly as in a fresh process")
+
+CANSEE_PROGRAM = """
+ego = new Object at (0, 0, 0), with visibleDistance 100, with viewAngles (360 deg, 180 deg)
+wall = new Object at (Range(-10, 10), Range(3, 6), 0), with width 6, with length 0.5, with height 6
+target = new Object at (Range(-10, 10), Range(8, 12), 0), with width 1, with length 1, with height 1
+require ego can see target
+"""
+
+BINDING_PROGRAM = """
+behavior B():
+    while True:
+        wait
+monitor M():
+    while True:
+        wait
+ego = new Object at (Range(0, 1), 0), with behavior B
+other = new Object at (10, Range(10, 11))
+require monitor M()
+require always ego.x < 100
+terminate when ego.x > 50
+terminate simulation when ego.x > 60
+record ego.x as x
+record initial ego.x as x0
+record final ego.x as x1
+"""
+
+
+def register_scene_binding(reg):
+    DYN = f"{DS}:DynamicScenario"
+
+    def make_compiled_top_level(I):
+        """The top-level scenario object as compilation leaves it: the REAL `__init__`, then compile-time contents
+        (unsampled objects, compiled requirements) for the lists the compiler fills."""
+        dyn = PObj(repo_class(DYN), tag="compiled top-level scenario")
+        I.run_function(I.find_method(repo_class(DYN), "__init__"), [dyn], {}, reg.contracts[KEY].inline_view())
+        unsampled = [PObj("Object", tag=f"unsampled object {k}") for k in range(2)]
+        workspace = PObj("Workspace", tag="workspace")
+        dyn.fields.update(_setup=None, _compose=None, _prepared=True, _dummyNamespace=PDict())
+        dyn.fields.update(_ego=unsampled[0], _workspace=workspace, _objects=PList(list(unsampled)), _agents=PList([unsampled[0]]))
+        for nm in ("_temporalRequirements", "_terminationConditions", "_terminateSimulationConditions", "_recordedExprs", "_recordedInitialExprs", "_recordedFinalExprs"):
+            dyn.fields[nm] = PList([PObj("CompiledRequirement", tag=f"compiled requirement in {nm}")])
+        return dyn, workspace
+
+    def make_scene(I, dyn, workspace, mode2d):
+        """A scene sampled from the scenario: sampled copies of the objects, requirements bound to the sample;
+        the workspace is the scenario's own (Scenario.generate passes it on)."""
+        objs = [PObj("Object", tag=f"object {k} of the scene") for k in range(2)]
+        objs[0].fields["behavior"] = PObj("Behavior", tag="behavior")
+        objs[1].fields["behavior"] = None
+        scene = PObj("Scene", tag="scene")
+        opts = PObj("CompileOptions", tag="compileOptions")
+        opts.fields["mode2D"] = mode2d
+        scene.fields.update(dynamicScenario=dyn, params=PDict([("p", 1)]), compileOptions=opts, behaviorNamespaces=PDict(), egoObject=objs[0], workspace=workspace, objects=tuple(objs), monitors=(PObj("Monitor", tag="monitor instantiated for the scene"),))
+        for nm in ("temporalRequirements", "terminationConditions", "terminateSimulationConditions", "recordedExprs", "recordedInitialExprs", "recordedFinalExprs"):
+            scene.fields[nm] = (PObj("BoundRequirement", tag=f"{nm} bound to the scene"),)
+        return scene
+
+    def fields_snapshot(o):
+        return {k: snap(v) for k, v in o.fields.items() if not isinstance(v, (BuiltinFn, FuncVal))}
+
+    def setup_bind(I, env):
+        dyn, workspace = make_compiled_top_level(I)
+        scene = make_scene(I, dyn, workspace, I.eng.choose(2, "scene compiled in 2D mode?") == 1)
+        sim = PObj("Simulation", tag="simulation")
+        sim.fields["scene"] = scene
+        env.vars["sim"] = sim
+        env.vars["_world"] = (dyn, scene, fields_snapshot(dyn))
+
+    def post_bind(I, env, outcome):
+        eng = I.eng
+        name = "veneer.beginSimulation[scenario-binding]"
+        dyn, scene, before = env.vars["_world"]
+        if outcome[0] != "return":
+            eng.check(f"{name}#ensures.begins_normally_from_the_inactive_state", False, detail=repr(outcome[1]))
+            return
+        f = dyn.fields
+        eng.check(f"{name}#ensures.scenario_bound_to_the_objects_of_the_scene", f["_ego"] is scene.fields["egoObject"] and isinstance(f["_objects"], PList) and len(f["_objects"].items) == 2 and all(a is b for a, b in zip(f["_objects"].items, scene.fields["objects"])))
+        bound = sorted(k for k in f if k in before and MD.same_value(I, f[k], before[k]) is not True)
+        # what the run itself does to the bound attributes before the clean-up ends the simulation
+        during = eng.choose(3, "the run: fails before the scenario starts / the scenario is started and stopped / a requirement and a monitor are added while it runs")
+        eng.input_syms.append(("run", C.Const(None), ["fails before the scenario starts", "scenario started and stopped", "requirement and monitor added while running"][during]))
+        view = reg.contracts[KEY].inline_view()
+        if during == 2:
+            I.run_function(scenario_method(I, "_addDynamicRequirement"), [dyn, "require", Opaque("condition"), 1, None], {}, view)
+            f["_monitors"].items.append(PObj("Monitor", tag="monitor added while running"))
+        if during >= 1:
+            f["_monitors"] = PList()  # DynamicScenario._stop
+            f["_requirementMonitors"] = None
+        I.run_function(MD.state_function(I, "endSimulation"), [env.vars["sim"]], {}, view)
+        for k in sorted(set(before) | set(f)):
+            v = f.get(k)
+            if isinstance(v, (BuiltinFn, FuncVal)):
+                continue
+            if k in before:
+                ok = MD.same_value(I, v, before[k])
+                what = f"{'bound by _bindTo; ' if k in bound else ''}after the simulation: {v!r}; before it: {before[k]!r}"
+            else:
+                # bookkeeping the binding itself creates must hold nothing once the simulation is over
+                ok = v is None or (isinstance(v, (PList, PDict)) and not (v.items if isinstance(v, PList) else v.keys))
+                what = f"attribute created during the simulation still holds {v!r}"
+            eng.check(f"{name}#ensures.compiled_scenario_unchanged_after_endSimulation[{k}]", ok, detail=what)
+
+    def ctor_dynreq(I, cls, args, kwargs):
+        return PObj(cls, dict(ty=args[0], line=args[2], name=args[3], toMonitor=BuiltinFn("toMonitor", lambda: PObj("RequirementMonitor", tag="requirement monitor"))), tag="requirement added while running")
+
+    reg.constructors.setdefault("scenic.core.requirements:DynamicRequirement", ctor_dynreq)
+    reg.trust("DynamicRequirement(...)", "constructor stub: a record of its arguments (its semantics is C11)")
+    KEY = f"{V}:beginSimulation[scenario-binding]"
+    reg.add(
+        C.Contract(
+            f"{V}:beginSimulation",
+            params=dict(sim=C.Const(None)),
+            closure_env=lambda I: MD.current_state(I).env,
+            setup=setup_bind,
+            post=post_bind,
+            inline=["isActive", "DynamicScenario.__init__", "Invocable.__init__", "DynamicScenario._bindTo", "DynamicScenario._unbind", "DynamicScenario._addDynamicRequirement"],
+            replay=replay_scene_binding,
+            bounded=True,
+            note="bounded: a scene of two objects (one agent), one monitor, one requirement of each kind; the scene shares the workspace object with the compiled scenario (Scenario.generate); "
+            "the compiled scenario object is built by the REAL DynamicScenario.__init__ and bound by the REAL _bindTo",
+            properties=("C14",),
+        ),
+        key=KEY,
+    )
+
+
+def _scene_bound_attrs():
+    return ("_ego", "_workspace", "_objects", "_agents", "_monitors", "_temporalRequirements", "_terminationConditions", "_terminateSimulationConditions", "_recordedExprs", "_recordedInitialExprs", "_recordedFinalExprs")
+
+
+def replay_scene_binding(inputs, clause):
+    """Real programs: the attributes of the compiled scenario before and after one simulation (normal run, and a run
+    whose simulator fails while creating the objects), and sampling with fixed seeds before / after one simulation."""
+    import random
+
+    import numpy
+
+    import scenic
+    from scenic.core.simulators import DummySimulation, DummySimulator
+
+    want = _component(clause)
+    run = inputs.get("run") if isinstance(inputs, dict) else None
+
+    class FailingSim(DummySimulation):
+        def createObjectInSimulator(self, obj):
+            raise RuntimeError("injected: the simulator cannot create the object")
+
+    class FailingSimulator(DummySimulator):
+        def createSimulation(self, scene, **kwargs):
+            return FailingSim(scene, **kwargs)
+
+    def contents(v):
+        return list(v) if isinstance(v, (list, tuple)) else v
+
+    def differs(a, b):
+        if isinstance(a, list) or isinstance(b, list):
+            return not (isinstance(a, list) and isinstance(b, list) and len(a) == len(b) and all(x is y for x, y in zip(a, b)))
+        return a is not b
+
+    def brief(v):
+        if isinstance(v, list):
+            return "[" + ", ".join(brief(x) for x in v) + "]"
+        if isinstance(v, (int, float, str, bool, type(None))):
+            return repr(v)
+        return f"<{type(v).__name__} #{id(v) % 10000}>"
+
+    found = []
+    for failing in ([True] if run == "fails before the scenario starts" else [False] if run else [False, True]):
+        sc = scenic.scenarioFromString(BINDING_PROGRAM, mode2D=True)
+        ds = sc.dynamicScenario
+        before = {k: contents(v) for k, v in vars(ds).items()}
+        scene, _ = sc.generate()
+        try:
+            (FailingSimulator() if failing else DummySimulator()).simulate(scene, maxSteps=2, maxIterations=1)
+        except RuntimeError:
+            pass
+        after = {k: contents(v) for k, v in vars(ds).items()}
+        for k in sorted(set(before) | set(after)):
+            if want is not None and k != want:
+                continue
+            if want is None and k in before and k not in _scene_bound_attrs():
+                # per-run counters (_elapsedTime, _timeLimitInSteps) keep the values of the last run; DynamicScenario._start
+                # re-initialises them before any read (relational clauses of the _start contract, section 5): not judged here
+                continue
+            if k in before and k in after and not differs(before[k], after[k]):
+                continue
+            if k not in before and (after[k] is None or after[k] == [] or after[k] == {}):
+                continue
+            how = "a simulation whose simulator fails while creating the objects" if failing else "a simulation"
+            found.append(f"after {how}, dynamicScenario.{k} of the COMPILED scenario holds {brief(after.get(k, '<absent>'))} (before the simulation: {brief(before.get(k, '<absent>'))})")
+    if not found:
+        return None
+
+    # consequence for later sampling: `X can see Y` in a requirement takes its occluders from dynamicScenario._objects
+    def samples(simulate_first):
+        random.seed(12345)
+        numpy.random.seed(12345)
+        sc = scenic.scenarioFromString(CANSEE_PROGRAM)
+        if simulate_first:
+            scene, _ = sc.generate()
+            DummySimulator().simulate(scene, maxSteps=1)
+        random.seed(777)
+        numpy.random.seed(777)
+        out = []
+        for _ in range(5):
+            scene, n = sc.generate(maxIterations=2000)
+            out.append((n, round(scene.objects[2].position.x, 3)))
+        return out
+
+    extra = ""
+    if want in (None, "_objects"):
+        a, b = samples(False), samples(True)
+        if a != b:
+            extra = f"; with `require ego can see target` and fixed seeds, five scenes sampled without a simulation in between: (iterations, target.x) = {a}; the same after one simulation in this process: {b} (the wall of the FIRST scene is used as occluder)"
+    return found[0] + extra
+
+
+# ====================================================================================================
+# (7) a start that fails half-way, then the clean-up: `DynamicScenario._stop(quiet=True)` must wind down exactly what
+#     `_start` got going -- in particular recorders that never began recording -- without raising, so that the run ends
+#     with the exception that caused it and `veneer.endSimulation` is reached
+
+
+def register_failed_start_cleanup(reg):
+    DYN = f"{DS}:DynamicScenario"
+    REC = "scenic.core.sensors:Recorder"
+    KEY = f"{DYN}._start[then-clean-up]"
+
+    def setup_fs(I, env):
+        eng = I.eng
+        st = MD.current_state(I)
+        sc = PObj(repo_class(DYN), tag="top-level scenario")
+        agent = PObj("Object", tag="agent")
+        beh = PObj(repo_class("scenic.core.dynamics.behaviors:Behavior"), tag="behavior")
+        beh.fields["_isRunning"] = False
+
+        def assign(a):
+            beh.fields["_isRunning"] = True
+            MD.maybe_raise(I, "behavior._assignTo(): a precondition of the behavior is violated")
+
+        def beh_stop(reason=None):
+            beh.fields["_isRunning"] = False
+
+        beh.fields["_assignTo"], beh.fields["_stop"] = BuiltinFn("_assignTo", assign), BuiltinFn("_stop", beh_stop)
+        agent.fields["behavior"] = beh
+        mon = PObj("Monitor", tag="monitor")
+        mon.fields["_isRunning"] = False
+
+        def mon_start():
+            mon.fields["_isRunning"] = True
+            MD.maybe_raise(I, "monitor._start(): a precondition of the monitor is violated")
+
+        def mon_stop(reason=None):
+            mon.fields["_isRunning"] = False
+
+        mon.fields["_start"], mon.fields["_stop"] = BuiltinFn("_start", mon_start), BuiltinFn("_stop", mon_stop)
+        # two `record ... to <file>` statements: REAL Recorder objects (begin/endRecording are the real methods);
+        # the second recorder is of a user-defined subclass whose beginRecording may fail before it starts recording
+        recs, exprs = [], []
+        begin = I.find_method(repo_class(REC), "beginRecording")
+        for k in range(2):
+            r = PObj(repo_class(REC), tag=f"recorder {k}")
+            r.fields["_recording"] = False
+            if k == 1:
+
+                def begin2(config, simName, timestep, params, r=r):
+                    MD.maybe_raise(I, "recorder.beginRecording(): the second recorder cannot open its file")
+                    return I.run_function(begin, [r, config, simName, timestep, params], {}, reg.contracts[KEY].inline_view())
+
+                r.fields["beginRecording"] = BuiltinFn("beginRecording", begin2)
+            cfg = PObj("RecordingConfiguration", dict(name=f"rec{k}", period=(1, "steps"), delay=(0, "steps"), recorder=r), tag=f"recording configuration {k}")
+            exprs.append(PObj("BoundRequirement", dict(recConfig=cfg, name=f"rec{k}"), tag=f"recorded expression {k}"))
+            recs.append(r)
+        exprs.append(PObj("BoundRequirement", dict(recConfig=None, name="plain"), tag="recorded expression without a file"))
+        sc.fields.update(
+            _isRunning=False, _prepared=True, _delayingPreconditionCheck=False, _args=(), _kwargs=PDict(), _agent=None, _runningIterator=None,
+            _timeLimit=None, _timeLimitIsInSeconds=False, _timeLimitInSteps=None, _elapsedTime=0, _temporalRequirements=PList(), _requirementMonitors=None,
+            _compose=None, _agents=PList([agent]), _monitors=PList([mon]), _subScenarios=PList(), _overrides=PDict(), _recordedExprs=tuple(exprs),
+            _globalParameters=PDict(), _ego=agent, _workspace=None,
+        )
+        sim = PObj("Simulation", tag="simulation")
+        sim.fields.update(timestep=1, name="sim")
+        st.set("currentSimulation", sim)
+        env.vars["self"] = sc
+        env.vars["_world"] = (sc, beh, mon, recs)
+
+    def post_fs(I, env, outcome):
+        eng = I.eng
+        st = MD.current_state(I)
+        name = "scenarios.DynamicScenario._start[then-clean-up]"
+        sc, beh, mon, recs = env.vars["_world"]
+        faults = MD.faults_on_path(I)
+        eng.input_syms.append(("faults", C.Const(None), repr(faults)))
+        where = "failed_start" if faults else "normal_start"
+        detail = f"faults: {faults!r}"
+        view = reg.contracts[KEY].inline_view()
+        if not faults:
+            eng.check(f"{name}#ensures.starts_normally_and_every_recorder_is_recording", outcome[0] == "return" and all(r.fields["_recording"] is True for r in recs), detail=detail)
+        else:
+            eng.check(f"{name}#ensures.the_failure_propagates", outcome[0] == "raise" and bool(outcome[1].args) and outcome[1].args[0] == f"raised by {faults[0]}", detail=detail)
+        # ---- the clean-up of Simulation.__init__: behaviors, then every scenario still listed as running, quietly
+        if beh.fields["_isRunning"]:
+            beh.fields["_isRunning"] = False
+        raised = None
+        for s in list(reversed(st.get("runningScenarios").items)):
+            try:
+                I.run_function(scenario_method(I, "_stop"), [s, "exception"], {"quiet": True}, view)
+            except SymRaise as sr:
+                raised = sr.exc
+                break
+        eng.check(f"{name}#ensures.the_quiet_stop_of_the_clean_up_does_not_raise@{where}", raised is None, detail=detail + (f"; _stop(quiet=True) raises {exc_name(raised)}" if raised is not None else ""))
+        eng.check(f"{name}#ensures.no_recorder_left_recording_after_the_clean_up@{where}", all(r.fields["_recording"] is False for r in recs), detail=detail)
+        eng.check(f"{name}#ensures.nothing_left_running_after_the_clean_up@{where}", sc.fields["_isRunning"] is False and mon.fields["_isRunning"] is False and not st.get("runningScenarios").items, detail=detail)
+
+    reg.add(
+        C.Contract(
+            f"{DYN}._start",
+            params=dict(self=C.Const(None)),
+            setup=setup_fs,
+            post=post_fs,
+            inline=["DynamicScenario._start", "DynamicScenario._stop", "Invocable._start", "Invocable._stop", "Invocable._finalizeArguments", "startScenario", "endScenario", "Recorder.beginRecording", "Recorder.endRecording"],
+            raises=[C.Raises("Exception", mode="may")],
+            replay=replay_failed_start_with_recorder,
+            bounded=True,
+            note="bounded: one agent, one monitor, two `record ... to` recorders (REAL scenic.core.sensors.Recorder objects; the second may fail in beginRecording) and one plain record; "
+            "the clean-up loop of Simulation.__init__ is executed by the postcondition with the REAL _stop",
+            properties=("C14",),
+        ),
+        key=KEY,
+    )
+
+    # ---- Simulation.__init__: the veneer is reset whatever the quiet _stop of the clean-up does
+    SIMCLS = f"{SIM}:Simulation"
+    KEY2 = f"{SIMCLS}.__init__[clean-up-faults]"
+    base = reg.contracts[f"{SIMCLS}.__init__"]
+
+    def setup_cf(I, env):
+        base.setup(I, env)
+        dyn, log = env.vars["_dyn"], env.vars["_log"]
+        inner = dyn.fields["_stop"].fn
+
+        def dyn_stop(reason, quiet=False):
+            r = inner(reason, quiet=quiet)
+            if quiet:
+                # user-extensible code runs here too: monitors' and sub-scenarios' _stop, recorders' endRecording (file I/O)
+                MD.maybe_raise(I, "cleanup: scenario._stop(quiet=True) raises (a recorder's endRecording fails)")
+            return r
+
+        dyn.fields["_stop"] = BuiltinFn("_stop", dyn_stop)
+
+    def post_cf(I, env, outcome):
+        eng = I.eng
+        st = MD.current_state(I)
+        name = "simulators.Simulation.__init__[clean-up-faults]"
+        faults = MD.faults_on_path(I)
+        eng.input_syms.append(("faults", C.Const(None), repr(faults)))
+        if not any(f.startswith("cleanup: scenario._stop") for f in faults):
+            return  # the other paths are the obligations of the un-keyed contract
+        detail = f"faults: {faults!r}; outcome: {outcome[0]} {outcome[1] if outcome[0] == 'raise' else ''}"
+        objs = env.vars["_objs"]
+        eng.check(f"{name}#ensures.an_exception_reaches_the_caller", outcome[0] == "raise", detail=detail)
+        eng.check(f"{name}#ensures.every_dynamic_proxy_disabled", all(o.fields["_dynamicProxy"] is o for o in objs), detail=detail)
+        dirty = [nm for nm in st.all_names() if MD.same_value(I, st.get(nm), st.initial(I, nm)) is not True]
+        eng.check(f"{name}#ensures.veneer_state_as_in_a_fresh_process_whatever_the_clean_up_stop_does", not dirty, detail=detail + "; differing components: " + ", ".join(f"{nm} = {st.get(nm)!r}" for nm in dirty))
+
+    reg.add(
+        C.Contract(
+            f"{SIMCLS}.__init__",
+            params=dict(base.params),
+            setup=setup_cf,
+            post=post_cf,
+            inline=list(base.inline),
+            raises=[C.Raises("Exception", mode="may")],
+            replay=replay_cleanup_stop_raises,
+            bounded=True,
+            note="bounded: the world of the un-keyed Simulation.__init__ contract; additionally the quiet _stop of the clean-up may raise after it has unregistered the scenario",
+            properties=("C14",),
+        ),
+        key=KEY2,
+    )
+
+
+RECORDER_PROGRAM = """
+from scenic.core.sensors import Recorder
+class Unwritable(Recorder):
+    def beginRecording(self, config, simulationName, timestep, globalParams):
+        raise OSError("cannot open the output file")
+    def recordValue(self, value, step):
+        pass
+behavior B():
+    {pre0}
+    while True:
+        wait
+behavior B2():
+    {pre1}
+    while True:
+        wait
+ego = new Object with behavior B
+other = new Object at (10, 10), with behavior B2
+record ego.position {to0}
+record other.position {to1}
+"""
+
+
+def _simulate_and_look(program, simulator=None, **kw):
+    """Compile + sample + simulate on the real code; returns (exception seen by the caller, veneer components that
+    differ from the fresh-process state, what a later compilation / simulation in the same process does)."""
+    import scenic
+    from scenic.core.simulators import DummySimulator
+
+    fresh = _veneer_snapshot()
+    sc = scenic.scenarioFromString(program)
+    scene, _ = sc.generate()
+    seen = None
+    try:
+        (simulator or DummySimulator()).simulate(scene, maxSteps=2, maxIterations=1, raiseGuardViolations=True, **kw)
+    except BaseException as e:  # noqa
+        seen = e
+    after = _veneer_snapshot()
+    dirty = [f"veneer.{nm} = {str(after[nm])[:60]}" for nm in fresh if _differs(fresh[nm], after[nm])]
+    later = []
+    for req in scene.recordedExprs:
+        rec = getattr(getattr(req, "recConfig", None), "recorder", None)
+        if rec is not None and getattr(rec, "_recording", False):
+            later.append(f"the recorder of `record ... to` ({type(rec).__name__}) is still marked as recording after the simulation")
+    if dirty:
+        try:
+            scenic.scenarioFromString("ego = new Object")
+        except BaseException as e:  # noqa
+            later.append(f"a later compilation in this process fails with {type(e).__name__}: {e}")
+    return seen, dirty, later
+
+
+def replay_failed_start_with_recorder(inputs, clause):
+    """`record ... to <file>` + a failure while the top-level scenario starts, on the real code.  Oracle: the caller
+    sees what it sees when the same program records without a file (`record ... as`), and the veneer is reset."""
+    import ast as _ast
+    import os
+    import tempfile
+    import traceback
+
+    faults = _ast.literal_eval(inputs.get("faults", "[]")) if isinstance(inputs, dict) else []
+    path = os.path.join(tempfile.mkdtemp(prefix="c14rec"), "rec.npz")
+    to_file = dict(to0=f'to "{path}"', to1="as second")
+    cases = []
+    if not faults or any(f.startswith("behavior._assignTo") for f in faults):
+        cases.append(("a precondition of the ego's behavior is violated when the scenario starts", dict(pre0="precondition: False", pre1="", **to_file)))
+    if not faults or any(f.startswith("monitor._start") for f in faults):
+        # (monitors cannot state preconditions in this grammar; the real-code stand-in for "fails after the first behavior has started")
+        cases.append(("a precondition of the SECOND agent's behavior is violated (the first behavior has already started)", dict(pre0="", pre1="precondition: False", **to_file)))
+    if not faults or any(f.startswith("recorder.beginRecording") for f in faults):
+        cases.append(("the recorder of a second `record ... to` statement fails in beginRecording", dict(pre0="", pre1="", to0=f'to "{path}"', to1="to Unwritable()")))
+    if not faults or clause == "*":
+        cases.append(("nothing fails", dict(pre0="", pre1="", **to_file)))
+    for what, sub in cases:
+        ref = dict(sub, to0="as first", to1="as second")
+        want, _, _ = _simulate_and_look(RECORDER_PROGRAM.format(**ref)) if "Unwritable" not in sub["to1"] else (OSError("cannot open the output file"), None, None)
+        seen, dirty, later = _simulate_and_look(RECORDER_PROGRAM.format(**sub))
+        problems = []
+        if type(seen) is not type(want):
+            where = ""
+            if seen is not None:
+                w = traceback.extract_tb(seen.__traceback__)[-1]
+                where = f" at {w.filename.rsplit('/', 1)[-1]}:{w.lineno} ({w.line})"
+            problems.append(f"the caller sees {type(seen).__name__ if seen is not None else 'no exception'}{where} instead of {type(want).__name__ if want is not None else 'a normal run'}")
+        problems += dirty + later
+        if problems:
+            return f'`record ego.position to "<file>"` and {what}: ' + "; ".join(problems[:5])
+    return None
+
+
+def replay_cleanup_stop_raises(inputs, clause):
+    """A user-defined recorder whose endRecording raises when the recording is cancelled by the clean-up."""
+    import ast as _ast
+
+    faults = _ast.literal_eval(inputs.get("faults", "[]")) if isinstance(inputs, dict) else []
+    if faults and not any(f.startswith("cleanup: scenario._stop") for f in faults):
+        return None
+    program = """
+from scenic.core.sensors import Recorder
+class Flaky(Recorder):
+    def recordValue(self, value, step):
+        pass
+    def endRecording(self, canceled):
+        super().endRecording(canceled)
+        if canceled:
+            raise OSError("cannot remove the partial recording")
+behavior B():
+    wait
+    require False
+ego = new Object with behavior B
+record ego.position to Flaky()
+"""
+    seen, dirty, later = _simulate_and_look(program)
+    if dirty:
+        return f"a recorder whose endRecording raises while the clean-up cancels the recording of a rejected run: the caller sees {type(seen).__name__}; afterwards " + "; ".join((dirty + later)[:5])
+    return None
+
+
+# ====================================================================================================
+# (8) `do <behavior>`: a sub-behaviour whose start fails (precondition violated, bad arguments) is not left running
+
+
+SUB_START_PROGRAM = """
+behavior Sub():
+    precondition: simulation().timestep < 1
+    wait
+sub = Sub()
+behavior Main():
+    do sub
+    while True:
+        wait
+ego = new Object with behavior Main
+"""
+
+
+def register_sub_behavior_start(reg):
+    BH = "scenic.core.dynamics.behaviors"
+    KEY = f"{BH}:Behavior._invokeInner[failed-start]"
+    PRE = "scenic.core.dynamics.guards:PreconditionViolation"
+
+    def setup_sub(I, env):
+        eng = I.eng
+        st = MD.current_state(I)
+        flag = {"on": True}
+        sub = PObj(repo_class(f"{BH}:Behavior"), tag="sub-behaviour")
+        sub.fields.update(_isRunning=False, _agent=None, _runningIterator=None, _args=(), _kwargs=PDict())
+        n_yields = eng.choose(2, "actions taken by the sub-behaviour (0-1)")
+
+        def make_gen(agent, *a, **k):
+            if flag["on"]:
+                MD.maybe_raise(I, "makeGenerator(): the behavior is invoked with the wrong arguments")
+            return MD.ScriptedIterator("sub-behaviour generator", lambda k: ("yield", (f"action {k}",)) if k < n_yields else ("return", None))
+
+        def check_pre():
+            if flag["on"]:
+                MD.maybe_raise(I, "_checkAllPreconditions(): a precondition of the sub-behaviour is violated", repo_class(PRE))
+
+        sub.fields["makeGenerator"] = BuiltinFn("makeGenerator", make_gen)
+        sub.fields["_checkAllPreconditions"] = BuiltinFn("_checkAllPreconditions", check_pre)
+        outer = PObj(repo_class(f"{BH}:Behavior"), tag="invoking behavior")
+        st.set("currentBehavior", outer)
+        env.vars.update(self=outer, agent=PObj("Agent", tag="agent"), subs=(sub,))
+        env.vars["_world"] = (sub, outer, flag, n_yields)
+
+    def drain(I, gen):
+        try:
+            return ("return", I.iterate(gen))
+        except SymRaise as sr:
+            return ("raise", sr.exc)
+
+    def post_sub(I, env, outcome):
+        eng = I.eng
+        name = "behaviors.Behavior._invokeInner[failed-start]"
+        sub, outer, flag, n_yields = env.vars["_world"]
+        if outcome[0] != "return":
+            eng.check(f"{name}#ensures.generator_created", False)
+            return
+        ended = drain(I, outcome[1])
+        faults = MD.faults_on_path(I)
+        eng.input_syms.append(("faults", C.Const(None), repr(faults)))
+        detail = f"faults: {faults!r}"
+        f = sub.fields
+        if faults:
+            eng.check(f"{name}#ensures.the_failure_of_the_start_propagates", ended[0] == "raise" and bool(ended[1].args) and ended[1].args[0] == f"raised by {faults[0]}", detail=detail)
+        else:
+            eng.check(f"{name}#ensures.normal_completion_when_the_sub_behaviour_finishes", ended[0] == "return" and len(ended[1]) == n_yields, detail=detail)
+        eng.check(f"{name}#ensures.sub_behaviour_not_left_running_however_its_start_ends", f["_isRunning"] is False and f["_agent"] is None and f["_runningIterator"] is None, detail=detail + f"; afterwards _isRunning = {f['_isRunning']}, _agent = {f['_agent']!r}")
+        eng.check(f"{name}#ensures.the_invoker_is_the_current_behavior_again", MD.current_state(I).get("currentBehavior") is outer, detail=detail)
+        # ---- the same behaviour object invoked again (next simulation of the scene / next iteration of a loop), nothing failing
+        flag["on"] = False
+        again = drain(I, I.run_function(I.find_method(repo_class(f"{BH}:Behavior"), "_invokeInner"), [outer, PObj("Agent", tag="agent of the next run"), (sub,)], {}, reg.contracts[KEY].inline_view()))
+        eng.check(f"{name}#relational.a_later_invocation_of_the_same_behaviour_object_runs_as_in_a_fresh_process", again[0] == "return" and len(again[1]) == n_yields, detail=detail + (f"; the later invocation raises {exc_name(again[1])}" if again[0] == "raise" else ""))
+
+    reg.add(
+        C.Contract(
+            f"{BH}:Behavior._invokeInner",
+            params=dict(self=C.Const(None), agent=C.Const(None), subs=C.Const(None)),
+            setup=setup_sub,
+            post=post_sub,
+            inline=["Behavior._invokeInner", "Behavior._start", "Behavior._stop", "Invocable._start", "Invocable._stop", "Invocable._finalizeArguments"],
+            replay=replay_sub_behavior_start,
+            bounded=True,
+            note="bounded: the sub-behaviour takes 0-1 actions; its start is the REAL Behavior._start / Invocable._start with makeGenerator and _checkAllPreconditions modelled (each may raise)",
+            properties=("C14",),
+        ),
+        key=KEY,
+    )
+
+
+def replay_sub_behavior_start(inputs, clause):
+    """One behaviour object (created when the program is compiled) invoked with `do` in two simulations of the same
+    scene: its precondition is violated in the first one (timestep 1) and holds in the second (timestep 0.5)."""
+    import traceback
+
+    import scenic
+    from scenic.core.simulators import DummySimulator
+
+    def second_run(first):
+        sc = scenic.scenarioFromString(SUB_START_PROGRAM)
+        scene, _ = sc.generate()
+        sub = sc.behaviorNamespaces["__main__"][0]["sub"] if isinstance(sc.behaviorNamespaces["__main__"], tuple) else sc.behaviorNamespaces["__main__"]["sub"]
+        seen1 = None
+        if first:
+            try:
+                DummySimulator().simulate(scene, maxSteps=2, maxIterations=1, timestep=1, raiseGuardViolations=True)
+            except BaseException as e:  # noqa
+                seen1 = e
+        state = (sub._isRunning, sub._agent is not None)
+        try:
+            sim = DummySimulator().simulate(scene, maxSteps=2, maxIterations=1, timestep=0.5, raiseGuardViolations=True)
+            out = "completes" if sim is not None else "is rejected"
+        except BaseException as e:  # noqa
+            w = traceback.extract_tb(e.__traceback__)[-1]
+            out = f"dies with {type(e).__name__} at {w.filename.rsplit('/', 1)[-1]}:{w.lineno} ({w.line})"
+        return seen1, state, out
+
+    _, _, fresh = second_run(False)
+    seen1, state, used = second_run(True)
+    if state[0] or state[1] or used != fresh:
+        return (
+            f"`sub = Sub()` at top level, `do sub` in the ego's behavior, precondition of Sub: simulation().timestep < 1.  First simulation (timestep 1) ends with "
+            f"{type(seen1).__name__}; afterwards the behaviour object of the COMPILED scenario has _isRunning = {state[0]}, _agent set: {state[1]}; "
+            f"a second simulation of the same scene with timestep 0.5 {used} (in a fresh process it {fresh})"
+        )
+    return None
+
+
 _register_veneer = register
 
 
@@ -1825,3 +2461,6 @@ def register(reg):  # noqa: F811
     register_simulation_cleanup(reg)
     register_proxy(reg)
     register_start_stop(reg)
+    register_scene_binding(reg)
+    register_failed_start_cleanup(reg)
+    register_sub_behavior_start(reg)
